@@ -2240,7 +2240,8 @@ class Circuit(Unitary, StateVectorMap, Collection[Operation]):
             ValueError: If the operation at `point` is too large for
                 `num_qudits`.
 
-            ValueError: If `bounding_region` is invalid.
+            ValueError: If `bounding_region` is invalid or does not
+                contain `point`.
 
             ValueError: If the initial node does not pass the filter.
 
@@ -2288,6 +2289,15 @@ class Circuit(Unitary, StateVectorMap, Collection[Operation]):
         if bounding_region is not None:
             bounding_region = CircuitRegion(bounding_region)
 
+        def in_bounds(cycle: int, qudit: int) -> bool:
+            """Return true if the point is inside the bounding region."""
+            if bounding_region is None:
+                return True
+            if qudit not in bounding_region:
+                return False
+            bounds = bounding_region[qudit]
+            return bounds.lower <= cycle <= bounds.upper
+
         if CircuitPoint.is_point(point):
             if self.is_point_idle(point):
                 init_region = CircuitRegion({point[1]: (point[0], point[0])})
@@ -2302,6 +2312,13 @@ class Circuit(Unitary, StateVectorMap, Collection[Operation]):
 
         if init_region.num_qudits > num_qudits:
             raise ValueError('Initial region is too large for num_qudits.')
+
+        if not all(
+            in_bounds(interval.lower, qudit)
+            and in_bounds(interval.upper, qudit)
+            for qudit, interval in init_region.items()
+        ):
+            raise ValueError('Initial region is not in the bounding region.')
 
         if filter is not None and not filter(init_region):
             raise ValueError('Initial region does not pass filter.')
@@ -2332,6 +2349,10 @@ class Circuit(Unitary, StateVectorMap, Collection[Operation]):
                 valid_region = True
                 need_to_fully_check = False
                 for qudit in op.location:
+                    if not in_bounds(point[0], qudit):
+                        valid_region = False
+                        break
+
                     if qudit not in region_bldr:
                         region_bldr[qudit] = CycleInterval(point[0], point[0])
                         need_to_fully_check = True
@@ -2347,7 +2368,7 @@ class Circuit(Unitary, StateVectorMap, Collection[Operation]):
 
                         # Absorb Single-qudit gates
                         index = point[0]
-                        while index > 0:
+                        while index > 0 and in_bounds(index - 1, qudit):
                             if not self.is_point_idle((index - 1, qudit)):
                                 prev_op = self[index - 1, qudit]
                                 if len(prev_op.location) != 1:
@@ -2370,7 +2391,10 @@ class Circuit(Unitary, StateVectorMap, Collection[Operation]):
 
                         # Absorb Single-qudit gates
                         index = point[0]
-                        while index < self.num_cycles - 1:
+                        while (
+                            index < self.num_cycles - 1
+                            and in_bounds(index + 1, qudit)
+                        ):
                             if not self.is_point_idle((index + 1, qudit)):
                                 next_op = self[index + 1, qudit]
                                 if len(next_op.location) != 1:
